@@ -141,7 +141,8 @@ def C14_RoundTripMarkup (wl : WL) (c : Cfg) : Prop :=
 
 /-- **Round trip.**  For every configuration meeting the decidable well-formedness `rtOK` (the dict
 invariants the library maintains by construction; `source` whitelisted; `to_…` trigger names reserved
-for automatic transitions) — with internal transitions, any combination of state and machine flags,
+for automatic transitions when `auto_transitions` is on, and when it is off not mistaken for automatic
+ones and without empty source entries) — with internal transitions, any combination of state and machine flags,
 any `model_attribute` — the rebuilt machine exists and its markup is identical: states with nesting,
 flags, callbacks, local transitions; all transitions in order; machine-level lists, options, models.
 Unbounded in tree depth/width and in the number of events, sources and transitions. -/
@@ -161,6 +162,11 @@ example : ((importMk false (exportMk WL.pinned witnessFlag)).map
     fun c' => (exportMk WL.pinned c').states.map MState.ignore) = some [some .no, some .yes] := by decide
 example : ((importMk false (exportMk WL.pinned witnessAttr)).map
     fun c' => (exportMk WL.pinned c').transitions.length) = some 0 := by decide
+
+/-- `auto_transitions` off: a user-defined trigger merely named `to_s1` is inside the round-trip theorem and
+is exported like any other -/
+example : rtOK WL.pinned witnessToNamed = true := by decide
+example : (exportMk WL.pinned witnessToNamed).transitions.length = 1 := by decide
 
 /-! ## non-vacuity -/
 
